@@ -22,6 +22,9 @@ type mismatchReporter struct {
 
 func (m *mismatchReporter) report(q *query, got string) {
 	m.total++
+	if q.ctxFn != nil {
+		q.ctx = q.ctxFn()
+	}
 	kind := strings.Fields(q.text)[0]
 	m.perKey[kind]++
 	if m.perKey[kind] > 3 {
@@ -63,7 +66,7 @@ func pkgFunctions(prog *ssa.Program, path string) []*ssa.Function {
 // skeletonFunctions renders the control-flow skeletons (functions f0, f1, …) for the shared package.
 func skeletonFunctions(rep *lib.Report) (string, map[string]string) {
 	r := lib.Rand("c02-skel")
-	maxExh, nRand, randMax := 3, 250, 12
+	maxExh, nRand, randMax := 3, 150, 12
 	if lib.Thorough() {
 		maxExh, nRand, randMax = 4, 2500, 20
 	}
